@@ -275,21 +275,25 @@ func allSpecs() []*spec {
 // ---------------------------------------------------------------- one execution context
 
 type caseCtx struct {
-	sp      *spec
-	m       fsm
-	core    *holdCore
-	mainG   uint64
-	sent    []pkt
-	lastReq time.Time // virtual time of the last Configure-/Terminate-Request seen in the send callback
-	hasReq  bool
-	pool    *recPool
-	static  net.IP
-	ipcp    *pppoe.IPCPStateMachine
-	mon     monitor
-	recs    []*evRec
-	panics  int
-	nakAddr net.IP          // IP-Address the automaton last suggested in a Configure-Nak (observed)
-	own     map[string]bool // magic numbers / interface identifiers the automaton used itself
+	sp       *spec
+	m        fsm
+	core     *holdCore
+	mainG    uint64
+	sent     []pkt
+	lastReq  time.Time // virtual time of the last Configure-/Terminate-Request seen in the send callback
+	hasReq   bool
+	pool     *recPool
+	static   net.IP
+	ipcp     *pppoe.IPCPStateMachine
+	lcp      *pppoe.LCPStateMachine // LCP only: SendProtocolReject / SendEchoRequest / keep-alive are LCP entry points
+	sess     *pppoe.Session         // LCP only: the session the keep-alive watches
+	lg       *zap.Logger
+	mon      monitor
+	recs     []*evRec
+	panics   int
+	nakAddr  net.IP          // IP-Address the automaton last suggested in a Configure-Nak (observed)
+	own      map[string]bool // magic numbers / interface identifiers the automaton used itself
+	accepted string          // description of the latest non-matching reply the automaton acted on (for witness texts)
 }
 
 func (c *caseCtx) send(proto uint16, data []byte) {
@@ -329,6 +333,7 @@ func (c *caseCtx) send(proto uint16, data []byte) {
 func newCase(sp *spec) (*caseCtx, error) {
 	c := &caseCtx{sp: sp, core: &holdCore{}, mainG: goid(), own: map[string]bool{hex.EncodeToString(u32(ourMagic)): true, hex.EncodeToString(u64(ourIfID)): true}}
 	lg := zap.New(c.core)
+	c.lg = lg
 	switch sp.proto {
 	case "LCP":
 		cfg := pppoe.DefaultLCPConfig()
@@ -343,6 +348,8 @@ func newCase(sp *spec) (*caseCtx, error) {
 			return nil, err
 		}
 		c.m = lcpA{m}
+		c.lcp = m
+		c.sess = &pppoe.Session{ID: 7}
 	case "IPCP":
 		cfg := pppoe.DefaultIPCPConfig()
 		if !sp.defaults {
@@ -406,22 +413,72 @@ type ev struct {
 }
 
 func alphabet(sp *spec) []string {
+	// Peer replies come in four identifier classes, all computed from what the automaton was
+	// observed to emit: cur = id of its latest Configure-Request, old = id of an earlier
+	// Configure-Request, nc = id of the latest packet it originated that is not a
+	// Configure-Request (Code-Reject, Protocol-Reject, Echo-Request, Terminate-Request),
+	// new = an id it never used. alt = cur with altered option bytes.
 	a := []string{"Up", "Down", "Open", "Close", "TO",
 		"RCR+", "RCR-", "RCRrej", "RCRmix",
-		"RCAcur", "RCAstale", "RCAalt", "RCNcur", "RCNstale", "RCJcur", "RCJstale", "RTR", "RTA", "UNK"}
+		"RCAcur", "RCAold", "RCAnc", "RCAnew", "RCAalt",
+		"RCNcur", "RCNold", "RCNnc", "RCNnew",
+		"RCJcur", "RCJold", "RCJnc", "RCJnew",
+		"RTR", "RTA", "UNK", "CRJcrit", "CRJother"}
 	if sp.proto == "LCP" {
-		a = append(a, "CRJcrit", "CRJother", "PRJlcp", "PRJother", "ECHO0", "ECHO3", "ECHO4", "ECHO8", "DISCARD")
+		// SPR = SendProtocolReject called by the server, SER = SendEchoRequest called directly,
+		// KA = one tick of the session keep-alive ticker (virtual time) which calls SendEchoRequest
+		a = append(a, "PRJlcp", "PRJother", "ECHO0", "ECHO3", "ECHO4", "ECHO8", "DISCARD", "SPR", "SER", "KA")
 	}
 	if sp.proto == "IPCP" && sp.ipMode == "static" {
 		a = append(a, "SETIP")
 	}
-	for _, k := range []string{"RCAcur", "RCR+", "RCR-", "RCNcur", "RCJcur", "RTR", "RTA", "RCAstale"} {
+	for _, k := range []string{"RCAcur", "RCR+", "RCR-", "RCNcur", "RCJcur", "RTR", "RTA", "RCAold", "RCAnc"} {
 		a = append(a, "RACE:"+k)
 	}
 	return a
 }
 
-var walkOnly = []string{"ADV:half", "ADV:rt-1", "ADV:rt+1", "ADV:2rt"}
+// replyClass splits a peer-reply event kind into its code letter (A, N, J) and identifier class.
+func replyClass(kind string) (code byte, class string) {
+	k := strings.TrimPrefix(kind, "RACE:")
+	if len(k) < 4 || !strings.HasPrefix(k, "RC") || (k[2] != 'A' && k[2] != 'N' && k[2] != 'J') {
+		return 0, ""
+	}
+	switch k[3:] {
+	case "cur", "old", "nc", "new", "alt", "peer":
+		return k[2], k[3:]
+	}
+	return 0, ""
+}
+
+// applicable: whether the event can be built in the present situation. It depends only on
+// what was observed so far (monitor, virtual time), never on the event's random seed, so the
+// breadth-first search can skip inapplicable children without executing them.
+func (c *caseCtx) applicable(kind string) bool {
+	k := strings.TrimPrefix(kind, "RACE:")
+	if k != kind {
+		// a restart timer can only be pending while RestartTimer has not elapsed since the last
+		// Configure-/Terminate-Request seen in the send callback
+		if !c.hasReq || !c.lastReq.Add(c.rt()).After(time.Now().Add(time.Nanosecond)) {
+			return false
+		}
+	}
+	if _, cls := replyClass(k); cls != "" {
+		if cls == "alt" {
+			return c.mon.hasOur && len(c.mon.ourData) > 0
+		}
+		return c.mon.hasID(cls)
+	}
+	switch k {
+	case "SPR", "SER", "KA":
+		return c.lcp != nil
+	case "SETIP":
+		return c.ipcp != nil && c.static != nil
+	}
+	return true
+}
+
+var walkOnly = []string{"ADV:half", "ADV:rt-1", "ADV:rt+1", "ADV:2rt", "RCApeer", "RCNpeer", "RCJpeer", "RACE:RCNold", "RACE:RCJnc", "RACE:RCAnew"}
 
 func handlerOf(kind string) string {
 	k := strings.TrimPrefix(kind, "RACE:")
@@ -430,6 +487,10 @@ func handlerOf(kind string) string {
 		return k
 	case k == "SETIP":
 		return "SetPeerIP"
+	case k == "SPR":
+		return "SendProtocolReject"
+	case k == "SER" || k == "KA":
+		return "SendEchoRequest"
 	case k == "TO" || strings.HasPrefix(k, "ADV:"):
 		return "timeout"
 	case strings.HasPrefix(k, "RCR"):
@@ -603,13 +664,47 @@ func dropType(os []topt, t byte) []topt {
 	return out
 }
 
+// replyOpts builds the option list of a peer Configure-Nak / Configure-Reject.
+func (c *caseCtx) replyOpts(code byte, r *rand.Rand) []topt {
+	if code == 'N' {
+		switch c.sp.proto {
+		case "LCP":
+			return [][]topt{{{1, u16(1400)}}, {{5, u32(0x0BADF00D)}}, {{3, []byte{0xc2, 0x23, 5}}}, {{1, u16(1000)}, {5, u32(7)}}}[r.IntN(4)]
+		case "IPCP":
+			return []topt{{3, []byte{10, 0, 0, byte(90 + r.IntN(9))}}}
+		}
+		return []topt{{1, u64(0x0200000000000000 + uint64(1+r.IntN(9)))}}
+	}
+	os, _ := parseOpts(c.mon.ourData)
+	if len(os) > 0 {
+		return []topt{os[r.IntN(len(os))]}
+	}
+	return []topt{{0x63, []byte{1}}}
+}
+
 // concretise turns an abstract packet event into bytes using only what the
-// harness observed (the automaton's latest Configure-Request).
+// harness observed (the packets the automaton handed to the send callback).
+// The caller has checked applicable(kind).
 func (c *caseCtx) concretise(kind string, r *rand.Rand) (p []byte, ok bool) {
 	cur := c.mon.ourID
-	stale := byte(0)
-	if c.mon.hasOur {
-		stale = cur - 1 - byte(r.IntN(2))
+	if code, cls := replyClass(kind); cls != "" {
+		id, ok := c.mon.idFor(cls, r)
+		if !ok {
+			return nil, false
+		}
+		switch code {
+		case 'A':
+			d := c.mon.ourData
+			if cls == "alt" { // matching identifier, options altered (judged under the lenient reading: identifier match = acknowledgement)
+				d = append([]byte(nil), d...)
+				d[len(d)-1] ^= 0x5a
+			}
+			return mkPkt(cConfAck, id, d), true
+		case 'N':
+			return mkPkt(cConfNak, id, encOpts(c.replyOpts('N', r))), true
+		default:
+			return mkPkt(cConfRej, id, encOpts(c.replyOpts('J', r))), true
+		}
 	}
 	switch kind {
 	case "RCR+":
@@ -620,58 +715,18 @@ func (c *caseCtx) concretise(kind string, r *rand.Rand) (p []byte, ok bool) {
 		return mkPkt(cConfReq, byte(r.IntN(256)), encOpts(c.reqOpts(r, "rej"))), true
 	case "RCRmix":
 		return mkPkt(cConfReq, byte(r.IntN(256)), encOpts(c.reqOpts(r, "mix"))), true
-	case "RCAcur":
-		if !c.mon.hasOur {
-			return nil, false
-		}
-		return mkPkt(cConfAck, cur, c.mon.ourData), true
-	case "RCAalt": // matching identifier, options altered (judged under the lenient reading: identifier match = acknowledgement)
-		if !c.mon.hasOur || len(c.mon.ourData) == 0 {
-			return nil, false
-		}
-		d := append([]byte(nil), c.mon.ourData...)
-		d[len(d)-1] ^= 0x5a
-		return mkPkt(cConfAck, cur, d), true
-	case "RCAstale":
-		return mkPkt(cConfAck, stale, c.mon.ourData), true
-	case "RCNcur", "RCNstale":
-		id := cur
-		if kind == "RCNstale" {
-			id = stale
-		} else if !c.mon.hasOur {
-			return nil, false
-		}
-		var o []topt
-		switch c.sp.proto {
-		case "LCP":
-			o = [][]topt{{{1, u16(1400)}}, {{5, u32(0x0BADF00D)}}, {{3, []byte{0xc2, 0x23, 5}}}, {{1, u16(1000)}, {5, u32(7)}}}[r.IntN(4)]
-		case "IPCP":
-			o = []topt{{3, []byte{10, 0, 0, byte(90 + r.IntN(9))}}}
-		default:
-			o = []topt{{1, u64(0x0200000000000000 + uint64(1+r.IntN(9)))}}
-		}
-		return mkPkt(cConfNak, id, encOpts(o)), true
-	case "RCJcur", "RCJstale":
-		id := cur
-		if kind == "RCJstale" {
-			id = stale
-		} else if !c.mon.hasOur {
-			return nil, false
-		}
-		os, _ := parseOpts(c.mon.ourData)
-		var o []topt
-		if len(os) > 0 {
-			o = []topt{os[r.IntN(len(os))]}
-		} else {
-			o = []topt{{0x63, []byte{1}}}
-		}
-		return mkPkt(cConfRej, id, encOpts(o)), true
 	case "RTR":
 		return mkPkt(cTermReq, byte(r.IntN(256)), []byte("bye")[:r.IntN(4)]), true
 	case "RTA":
 		return mkPkt(cTermAck, byte(r.IntN(256)), nil), true
 	case "UNK":
-		return mkPkt(0x55, byte(r.IntN(256)), []byte{1, 2, 3}), true
+		// a code the automaton does not implement: LCP answers with a Code-Reject, which consumes one
+		// of its identifiers (12 = Identification, 13 = Time-Remaining, 14 = Reset-Request are real codes)
+		codes := []byte{12, 13, 14, 0, 0x55, 0xff}
+		if c.sp.proto != "LCP" {
+			codes = []byte{8, 9, 10, 12, 0, 0x55} // LCP-only codes sent to a network control protocol
+		}
+		return mkPkt(codes[r.IntN(len(codes))], byte(r.IntN(256)), []byte{1, 2, 3}[:r.IntN(4)]), true
 	case "CRJcrit":
 		return mkPkt(cCodeRej, byte(r.IntN(256)), mkPkt(byte(1+r.IntN(4)), cur, nil)), true
 	case "CRJother":
